@@ -50,24 +50,3 @@ Theorem c14_world_stays_usable_afterwards :
     FInv (fold_left (run_top_all beh) ops (world0 fuel p)).
 Proof. exact reachable_FInv. Qed.
 Print Assumptions c14_world_stays_usable_afterwards.
-
-From Coq Require Import Bool.
-Require Import EV.Listen EV.Fetch EV.NoUB EV.Sender EV.Users.
-(* World::remove_component on any world satisfying the reachable invariant ZI: when it has returned true,
-   the component index is free, no live handler references the component in any query, no archetype has it,
-   and no Insert/Remove event for it is registered *)
-Theorem c14_nothing_mentions_the_removed_component :
-  forall (beh : hinfo -> logent -> N -> script) (k : key) (w w' : world), ZI w ->
-    remove_component beh k w = ROk true w' ->
-    get_by_index (w_comps w') (fst k) = None /\
-    (forall hk h, hlive w' hk h -> smem (fst k) (h_refcomps h) = false) /\
-    (forall ai a, arch_at w' ai = Some a -> ~ In (fst k) (a_comps a)) /\
-    (forall i ek info, get_by_index (w_tev w') i = Some (ek, info) -> e_kind info <> KInsert (fst k) /\ e_kind info <> KRemove (fst k)).
-Proof. exact remove_component_exact. Qed.
-Print Assumptions c14_nothing_mentions_the_removed_component.
-
-Theorem c14_reachable_worlds_satisfy_ZI :
-  forall (beh : hinfo -> logent -> N -> script) (fuel p : N) (ops : list top_all),
-    ZI (fold_left (run_top_all beh) ops (world0 fuel p)).
-Proof. exact reachable_ZI. Qed.
-Print Assumptions c14_reachable_worlds_satisfy_ZI.
